@@ -488,6 +488,9 @@ func (n *Net) Settle() bool {
 // 256 (the cache has 1024 shards, so 1 MB means that no entry above 1 KB fits). Read by Build.
 var CacheMB = map[int]int{}
 
+// PipeSlots: buffer size of every node's hand-over pipe between its services and its gossiper (set before Build).
+var PipeSlots uint16 = 100
+
 func Build(k int, adj [][]int, adversary int) (*Net, error) {
 	ctx, stop := context.WithCancel(context.Background())
 	n := &Net{Adj: adj, Keys: map[string]ed25519.PublicKey{}, AddrIdx: map[string]int{}, ctx: ctx, stop: stop}
@@ -524,7 +527,7 @@ func Build(k int, adj [][]int, adversary int) (*Net, error) {
 		if err != nil {
 			return nil, err
 		}
-		vn.Pipe = pipe.New(100, 100)
+		vn.Pipe = pipe.New(PipeSlots, PipeSlots)
 		vn.G = gossip.VerifNewGossiper("node-"+a.Name, ledger.NoLog{}, time.Second, &a.W, wallet.NewVerifier(),
 			&recAccounter{n: n, idx: i, b: b}, &recCache{Hippocampus: vn.Cache, n: n, idx: i}, vn.Flash, vn.Pipe, nil)
 		vn.Srv = vn.G.Server()
